@@ -210,6 +210,11 @@ class FnTrans:
         return None, None
 
     def index_read(self, t, ty, p, it, ity, ip):
+        if ty == "IdArray" and ity == "Nat":
+            # a vector of pointers modelled by their indices (v[i]->id == i): v[i] = i, the vector itself = its size
+            return it, "Nat", self.conj(p, ip, "decide (%s < %s)" % (it, t))
+        if " → " in ty and ty.split(" → ")[0] == ity and len(ty.split(" → ")) == 2:
+            return "(%s %s)" % (t, it), ty.split(" → ")[1], self.conj(p, ip)      # C array indexed by an enum = a function on the enum
         if ity != "Nat": raise Unsupported("%s: index of type %s" % (self.name, ity))
         c, ety = self.elem_type(ty)
         if c == "Array":
@@ -217,6 +222,13 @@ class FnTrans:
         if c == "List":
             return "(%s.getD %s default)" % (t, it), ety, self.conj(p, ip, "decide (%s < %s.length)" % (it, t))
         raise Unsupported("%s: subscript on %s" % (self.name, ty))
+
+    def coerce(self, t, ty, p, want):
+        """a possibly-null pointer (Option T) used where the pointee identity T is needed: obligation `isSome`"""
+        if ty == want: return t, ty, p
+        if ty == "Option " + want: return "(%s.getD default)" % t, want, self.conj(p, "%s.isSome" % t)
+        if want.startswith("Option ") and want[7:] == ty: return "(some %s)" % t, want, p
+        raise Unsupported("%s: %s where %s is expected" % (self.name, ty, want))
 
     def num(self, ty):
         """numeric class of a Lean type (job["num"][ty] = dict(lit=fmt, max=text, ops={op: fmt}))"""
@@ -287,9 +299,22 @@ class FnTrans:
         if k in ("ExprWithCleanups", "MaterializeTemporaryExpr", "CXXBindTemporaryExpr", "ConstantExpr",
                  "CXXStaticCastExpr", "CXXFunctionalCastExpr", "CStyleCastExpr", "ImplicitCastExpr"):
             ck = n.get("castKind", "NoOp")
+            if ck == "NullToPointer":
+                lt_ = self.lean_type(n["type"]["qualType"])[0]
+                if not lt_.startswith("Option "): raise Unsupported("%s: nullptr as %s" % (self.name, lt_))
+                return "(none : %s)" % lt_, lt_, None
+            if ck == "ToVoid": raise Unsupported("%s: void cast inside an expression" % self.name)
             t, ty, p = self.expr(inner[0], env)
-            if ck in ("LValueToRValue", "NoOp", "FunctionToPointerDecay", "ConstructorConversion", "DerivedToBase", "UserDefinedConversion"):
+            if ck in ("LValueToRValue", "NoOp", "FunctionToPointerDecay", "ConstructorConversion", "DerivedToBase", "UserDefinedConversion",
+                      "UncheckedDerivedToBase", "ArrayToPointerDecay"):
                 return t, ty, p
+            if ck == "BaseToDerived":
+                # static_cast<Derived*>(base pointer): the job maps both classes to the same Lean type
+                if self.lean_type(n["type"]["qualType"])[0] != ty: raise Unsupported("%s: downcast %s -> %s" % (self.name, ty, n["type"]["qualType"]))
+                return t, ty, p
+            if ck == "PointerToBoolean":
+                if not ty.startswith("Option "): raise Unsupported("%s: pointer-to-bool of %s" % (self.name, ty))
+                return "%s.isSome" % t, "Bool", p
             if ck == "IntegralToFloating":
                 lit = inner[0]
                 while lit.get("kind") in ("ParenExpr", "ImplicitCastExpr") and lit.get("castKind", "NoOp") in ("NoOp",): lit = lit["inner"][0]
@@ -318,8 +343,33 @@ class FnTrans:
         if k == "CXXConstructExpr" and len(inner) == 1:
             return self.expr(inner[0], env)         # copy construction of a value type
         if k == "ArraySubscriptExpr":
-            t, ty, p = self.expr(inner[0], env); it, ity, ip = self.expr(inner[1], env)
+            t, ty, p = self.expr(inner[0], env)
+            ix = inner[1]
+            if " → " in ty:      # enum used as array index: drop the promotion to int
+                while ix.get("kind") == "ImplicitCastExpr" and ix.get("castKind") in ("IntegralCast", "LValueToRValue", "NoOp") and ix["inner"][0].get("kind") in ("ImplicitCastExpr", "DeclRefExpr", "MemberExpr"):
+                    if ix.get("castKind") == "IntegralCast": ix = ix["inner"][0]; break
+                    ix = ix["inner"][0]
+            it, ity, ip = self.expr(ix, env)
             return self.index_read(t, ty, p, it, ity, ip)
+        if k == "CXXNullPtrLiteralExpr":
+            raise Unsupported("%s: nullptr outside a pointer conversion" % self.name)
+        if k == "CXXNewExpr":
+            ce = inner[0]
+            if ce.get("kind") != "CXXConstructExpr": raise Unsupported("%s: new without constructor" % self.name)
+            cls = ce["type"]["qualType"].split("::")[-1]
+            spec = self.job.get("ctors", {}).get(cls)
+            if spec is None: raise Unsupported("%s: new %s" % (self.name, cls))
+            lty, flds = spec
+            cargs = [c for c in ce.get("inner", []) if isinstance(c, dict)]
+            if len(cargs) != len(flds): raise Unsupported("%s: new %s with %d arguments" % (self.name, cls, len(cargs)))
+            parts_, pres = [], []
+            for a_, (fn_, fty_, dflt_) in zip(cargs, flds):
+                if a_.get("kind") == "CXXDefaultArgExpr":
+                    if dflt_ is None: raise Unsupported("%s: default argument %s of %s" % (self.name, fn_, cls))
+                    parts_.append("%s := %s" % (fn_, dflt_)); continue
+                t_, ty_, p_ = self.coerce(*self.expr(a_, env), want=fty_)
+                parts_.append("%s := %s" % (fn_, t_)); pres.append(p_)
+            return "(some ({ %s } : %s))" % (", ".join(parts_), lty), "Option " + lty, self.conj(*pres)
         if k == "IntegerLiteral":
             ty = self.lean_type(n["type"]["qualType"])[0]
             return "(%s : %s)" % (n["value"], ty), ty, None
@@ -336,6 +386,7 @@ class FnTrans:
             rd = n["referencedDecl"]
             nm = rd["name"]
             if rd["kind"] in ("ParmVarDecl", "VarDecl"):
+                if nm in env and env[nm].get("iter"): raise Unsupported("%s: iterator %s used other than through * / ->" % (self.name, nm))
                 if nm in env: return env[nm]["lean"], env[nm]["type"], None
                 consts = self.job.get("constants", {})
                 if nm in consts: return consts[nm][0], consts[nm][1], None
@@ -352,6 +403,7 @@ class FnTrans:
                 if getattr(self, "tstruct", None) and nm in self.tstruct[2] and "this" in env:
                     return "%s.%s" % (env["this"]["lean"], self.tstruct[2][nm][0]), self.tstruct[2][nm][1], None
                 if nm in env and any(st[0] == nm for st in self.state): return env[nm]["lean"], env[nm]["type"], None
+                if nm in env and nm in self.job.get("member_locals", {}): return env[nm]["lean"], env[nm]["type"], None
                 if nm in self.members: return self.members[nm][0], self.members[nm][1], None
                 raise Unsupported("%s: member %s of this not mapped" % (self.name, nm))
             t, ty, p = self.expr(base, env)
@@ -363,7 +415,12 @@ class FnTrans:
                 return "%s.%d" % (t, i_ + 1), ty.split(" × ")[i_].strip(), p
             fty = self.job.get("fields", {}).get((ty, fld))
             if ty == "Pt" and fld in ("x", "y"): fty = "Rat"
+            if fty is None and ty.startswith("Option ") and n.get("isArrow"):
+                fty = self.job.get("fields", {}).get((ty[7:], fld))        # p->f on a possibly-null pointer
+                if fty is not None: t, ty, p = "(%s.getD default)" % t, ty[7:], self.conj(p, "%s.isSome" % t)
             if fty is None: raise Unsupported("%s: field %s of %s" % (self.name, fld, ty))
+            if isinstance(fty, tuple):        # (lean projection, type); projection None = the value itself (p->id of a pointer modelled by its id)
+                return (t if fty[0] is None else "%s.%s" % (t, fty[0])), fty[1], p
             return "%s.%s" % (t, fld), fty, p
         if k == "UnaryOperator":
             op = n["opcode"]
@@ -459,13 +516,19 @@ class FnTrans:
             callee = inner[0]
             while callee.get("kind") == "ImplicitCastExpr": callee = callee["inner"][0]
             opname = callee["referencedDecl"]["name"]
+            if opname in ("operator*", "operator->") and len(inner) == 2:
+                a_ = inner[1]
+                while a_.get("kind") in ("ImplicitCastExpr", "ParenExpr"): a_ = a_["inner"][0]
+                if a_.get("kind") == "DeclRefExpr" and env.get(a_["referencedDecl"]["name"], {}).get("iter"):
+                    e_ = env[a_["referencedDecl"]["name"]]
+                    return e_["lean"], e_["type"], None
             args = [self.expr(x, env) for x in inner[1:]]
             if opname in ("operator==", "operator!=") and args[0][1] == args[1][1] == "Pt":
                 lop = "=" if opname == "operator==" else "≠"
                 return "(decide (%s %s %s))" % (args[0][0], lop, args[1][0]), "Bool", self.conj(args[0][2], args[1][2])
             if opname == "operator[]":
                 t, ty, p = args[0]
-                if self.elem_type(ty)[0] in ("Array", "List"):
+                if self.elem_type(ty)[0] in ("Array", "List") or ty == "IdArray":
                     return self.index_read(t, ty, p, args[1][0], args[1][1], args[1][2])
                 if ty.startswith("List "):
                     ety = ty[5:]
@@ -527,6 +590,8 @@ class FnTrans:
             base, tb, pb = self.expr(me["inner"][0], env)
             if mname == "size" and tb.startswith("List "):
                 return "%s.length" % base, "Nat", pb
+            if mname == "front" and tb.startswith("List ") and len(inner) == 1:
+                return "(%s.headD default)" % base, self.elem_type(tb)[1], self.conj(pb, "decide (0 < %s.length)" % base)
             if mname == "size" and self.elem_type(tb)[0] == "Array":
                 return "%s.size" % base, "Nat", pb
             raise Unsupported("%s: member call %s on %s" % (self.name, mname, tb))
@@ -662,6 +727,28 @@ class FnTrans:
         if n.get("kind") == "ReturnStmt": return True
         return any(self.has_return(c) for c in n.get("inner", []) if isinstance(c, dict))
 
+    def has_jump(self, n):
+        """contains a `return`, or a `continue` of the loop being translated (loops nested inside n keep their own `continue`s)"""
+        if n.get("kind") in ("ReturnStmt",): return True
+        if n.get("kind") == "ContinueStmt": return True
+        if n.get("kind") in ("ForStmt", "WhileStmt", "DoStmt"): return self.has_return(n)
+        return any(self.has_jump(c) for c in n.get("inner", []) if isinstance(c, dict))
+
+    def always_jumps(self, n):
+        k = n.get("kind")
+        if k in ("ReturnStmt", "ContinueStmt"): return True
+        if k == "CompoundStmt":
+            return any(self.always_jumps(c) for c in n.get("inner", []))
+        if k == "IfStmt":
+            parts = n["inner"]
+            return len(parts) == 3 and self.always_jumps(parts[1]) and self.always_jumps(parts[2])
+        return False
+
+    def only_throws(self, n):
+        while n.get("kind") in ("CompoundStmt",) and len(n.get("inner", [])) == 1: n = n["inner"][0]
+        while n.get("kind") == "ExprWithCleanups": n = n["inner"][0]
+        return n.get("kind") == "CXXThrowExpr"
+
     def always_returns(self, n):
         k = n.get("kind")
         if k == "ReturnStmt": return True
@@ -695,6 +782,52 @@ class FnTrans:
             c, tc, pc = self.expr(a, env)
             v, p = nxt(env)
             return v, "%s(%s) &&\n%s%s" % ("", self.conj(pc, c), pad, p)
+        if k == "DoStmt":
+            cnd = s["inner"][1]
+            while cnd.get("kind") in ("ImplicitCastExpr", "ParenExpr"): cnd = cnd["inner"][0]
+            if cnd.get("kind") in ("IntegerLiteral", "CXXBoolLiteralExpr") and str(cnd.get("value")) in ("0", "False", "false"):
+                return self.block([s["inner"][0]] + rest, env, cont, ind)        # do { … } while (0): the body, once
+            raise Unsupported("%s: do-while loop" % self.name)
+        if k == "CStyleCastExpr" and s.get("castKind") == "ToVoid":
+            x_ = s["inner"][0]
+            while x_.get("kind") in ("ParenExpr", "ImplicitCastExpr"): x_ = x_["inner"][0]
+            if x_.get("kind") == "DeclRefExpr": return nxt(env)        # (void) x;
+            raise Unsupported("%s: void cast of an expression with possible effects" % self.name)
+        if k == "ContinueStmt":
+            if getattr(self, "_contcont", None) is None: raise Unsupported("%s: continue outside a translated loop" % self.name)
+            return self._contcont(env)
+        if k == "IfStmt" and len([c for c in s["inner"] if isinstance(c, dict)]) == 2 and self.only_throws(s["inner"][1]):
+            # if (c) throw …;   = the obligation !c (an exception is a failed obligation, like an assertion)
+            c, tc, pc = self.expr(s["inner"][0], env)
+            if tc != "Bool": raise Unsupported("%s: non-bool condition" % self.name)
+            v, p = nxt(env)
+            return v, "(%s) &&\n%s%s" % (self.conj(pc, "!(%s)" % c), pad, p)
+        if k == "BinaryOperator" and s.get("opcode") == "=":
+            l_ = s["inner"][0]
+            if l_.get("kind") == "MemberExpr" and l_.get("name") in self.job.get("skip_member_writes", []):
+                # p->creator = this;  bookkeeping field the job does not model: only the dereference obligation remains
+                b_ = l_["inner"][0]
+                t_, ty_, p_ = self.expr(b_, env)
+                if l_.get("isArrow") and ty_.startswith("Option "): p_ = self.conj(p_, "%s.isSome" % t_)
+                v, p = nxt(env)
+                return v, (("(%s) &&\n%s" % (p_, pad)) if p_ else "") + p
+        if k == "CXXMemberCallExpr":
+            me_ = s["inner"][0]
+            ob_ = me_["inner"][0] if me_.get("kind") == "MemberExpr" else {}
+            while ob_.get("kind") in ("ImplicitCastExpr", "ParenExpr"): ob_ = ob_["inner"][0]
+            if ob_.get("kind") == "MemberExpr" and ob_.get("name") in self.job.get("skip_member_calls", []):
+                ob2 = ob_["inner"][0]
+                while ob2.get("kind") in ("ImplicitCastExpr", "ParenExpr"): ob2 = ob2["inner"][0]
+                if ob2.get("kind") == "CXXThisExpr":
+                    args_ = [self.expr(a_, env) for a_ in s["inner"][1:] if isinstance(a_, dict)]      # arguments must still be understood
+                    v, p = nxt(env)
+                    pc_ = self.conj(*[a_[2] for a_ in args_])
+                    return v, (("(%s) &&\n%s" % (pc_, pad)) if pc_ else "") + p
+            if ob_.get("kind") == "CXXThisExpr" and me_.get("name") in self.job.get("assert_calls", {}):
+                args_ = [self.expr(a_, env) for a_ in s["inner"][1:] if isinstance(a_, dict)]
+                cond_ = self.job["assert_calls"][me_["name"]].format(*[a_[0] for a_ in args_])
+                v, p = nxt(env)
+                return v, "(%s) &&\n%s%s" % (self.conj(*[a_[2] for a_ in args_], cond_), pad, p)
         if k == "DeclStmt":
             env = dict(env)
             lets, pres = [], []
@@ -789,8 +922,7 @@ class FnTrans:
             ct, cty, cp = self.expr(pb_[0], env)
             c_, ety = self.elem_type(cty)
             if c_ != "List": raise Unsupported("%s: push_back on %s" % (self.name, cty))
-            xt, xty, xp = self.expr(pb_[1], env)
-            if xty != ety: raise Unsupported("%s: push_back of %s into %s" % (self.name, xty, cty))
+            xt, xty, xp = self.coerce(*self.expr(pb_[1], env), want=ety)
             env, h_, p_ = self.assign_to(pb_[0], "(%s ++ [%s])" % (ct, xt), cty, env, pad)
             v, pp = nxt(env)
             pc = self.conj(cp, xp, p_)
@@ -871,7 +1003,7 @@ class FnTrans:
             thn = parts[1]
             els = parts[2] if len(parts) > 2 else {"kind": "NullStmt"}
             pcs = ("(%s) &&\n%s" % (pc, pad)) if pc else ""
-            if not self.has_return(thn) and not self.has_return(els):
+            if not self.has_jump(thn) and not self.has_jump(els):
                 # tuple-merge the variables assigned in the branches
                 vs = sorted(v for v in (self.assigned_vars(thn, set()) | self.assigned_vars(els, set())) if v in env)
                 if not vs:
@@ -899,7 +1031,7 @@ class FnTrans:
                     prepart = "(if %s then (%s) else (%s)) &&\n%s" % (c, tp, ep, pad)
                 return head + v, pcs + prepart + head + p
             # some branch returns.
-            t_all, e_all = self.always_returns(thn), self.always_returns(els)
+            t_all, e_all = self.always_jumps(thn), self.always_jumps(els)
             pad1 = "  " * (ind + 1)
             if t_all or e_all or not rest:
                 # at most one branch falls through: the continuation is emitted once
@@ -1066,6 +1198,101 @@ class FnTrans:
             if isinstance(c, dict): self.vars_read(c, acc)
         return acc
 
+    def loop_body(self, body, benv, carried, ind):
+        """translate a loop body whose result is the tuple of carried variables; `continue` = end of this iteration"""
+        fin = lambda e: (self.state_pack([e[c]["lean"] for c in carried]), "true")
+        saved = (self._loopctx, getattr(self, "_retwrap", None), getattr(self, "_breakcont", None), getattr(self, "_contcont", None))
+        self._loopctx, self._retwrap, self._breakcont, self._contcont = None, None, None, fin
+        try:
+            return self.block([body], benv, fin, ind)
+        finally:
+            self._loopctx, self._retwrap, self._breakcont, self._contcont = saved
+
+    def strip_wrappers(self, n):
+        while n.get("kind") in ("ExprWithCleanups", "MaterializeTemporaryExpr", "ImplicitCastExpr", "ParenExpr", "CXXBindTemporaryExpr") or \
+                (n.get("kind") == "CXXConstructExpr" and len([c for c in n.get("inner", []) if isinstance(c, dict)]) == 1):
+            n = [c for c in n["inner"] if isinstance(c, dict)][0]
+        return n
+
+    def shape(self, n):
+        """structure of an expression without source locations / ids (to compare the containers of begin() and end())"""
+        return (n.get("kind"), n.get("name"), n.get("referencedDecl", {}).get("name"), n.get("opcode"),
+                tuple(self.shape(c) for c in n.get("inner", []) if isinstance(c, dict)))
+
+    def for_each(self, s, rest, env, cont, ind):
+        """`for (C::iterator o = c.begin(); o != c.end(); ++o) body` where the body reads the iterator only through `*o` / `o->`
+        and does not change the container: `forEach (fun x state => body) c state`"""
+        pad = "  " * ind
+        parts = s["inner"]
+        init, cond, inc, body = parts[0], parts[2], parts[3], parts[4]
+        if len(init["inner"]) != 1: raise Unsupported("%s: iterator loop init" % self.name)
+        iv = init["inner"][0]
+        oname = iv["name"]
+        b_ = self.strip_wrappers(iv["inner"][0])
+        if b_.get("kind") != "CXXMemberCallExpr" or b_["inner"][0].get("name") != "begin": raise Unsupported("%s: iterator loop must start at begin()" % self.name)
+        cnode = b_["inner"][0]["inner"][0]
+        c_ = self.strip_wrappers(cond) if cond is not None else {}
+        ok = c_.get("kind") == "CXXOperatorCallExpr"
+        if ok:
+            ci = [x for x in c_["inner"] if isinstance(x, dict)]
+            callee = self.strip_wrappers(ci[0])
+            ok = callee.get("referencedDecl", {}).get("name") == "operator!=" and len(ci) == 3
+        if ok:
+            l_, r_ = self.strip_wrappers(ci[1]), self.strip_wrappers(ci[2])
+            ok = l_.get("kind") == "DeclRefExpr" and l_["referencedDecl"]["name"] == oname and r_.get("kind") == "CXXMemberCallExpr" \
+                and r_["inner"][0].get("name") == "end" and self.shape(self.strip_wrappers(r_["inner"][0]["inner"][0])) == self.shape(self.strip_wrappers(cnode))
+        if not ok: raise Unsupported("%s: iterator loop condition must be `it != c.end()` on the same container" % self.name)
+        i_ = self.strip_wrappers(inc) if inc is not None else {}
+        ii = [x for x in i_.get("inner", []) if isinstance(x, dict)]
+        if not (i_.get("kind") == "CXXOperatorCallExpr" and self.strip_wrappers(ii[0]).get("referencedDecl", {}).get("name") == "operator++"
+                and self.strip_wrappers(ii[1]).get("referencedDecl", {}).get("name") == oname):
+            raise Unsupported("%s: iterator loop increment" % self.name)
+        ct, cty, cp = self.expr(cnode, env)
+        ck, ety = self.elem_type(cty)
+        if ck != "List": raise Unsupported("%s: iterator loop over %s" % (self.name, cty))
+        assigned = self.assigned_vars(body, set())
+        if oname in assigned: raise Unsupported("%s: iterator assigned in the loop body" % self.name)
+        if self.vars_read(cnode) & assigned: raise Unsupported("%s: the loop body changes the container it iterates over" % self.name)
+        carried = sorted(v for v in assigned if v in env)
+        if not carried: raise Unsupported("%s: loop without effect" % self.name)
+        ctys = [env[c]["type"] for c in carried]
+        benv = dict(env)
+        xln = self.fresh("item")
+        benv[oname] = dict(lean=xln, type=ety, iter=True)
+        cnames = []
+        for c in carried:
+            ln = self.fresh(c); cnames.append(ln); benv[c] = dict(lean=ln, type=env[c]["type"])
+        svar = cnames[0] if len(carried) == 1 else self.fresh("st")
+        sty = " × ".join(ctys)
+        pad2 = "  " * (ind + 2)
+        unpack = self.state_unpack(svar, cnames, ctys, pad2)
+        bv, bp = self.loop_body(body, benv, carried, ind + 2)
+        used = self.vars_read(body)
+        keep_all = bool(self.paths)
+        fixed = [(c, env[c]["lean"], env[c]["type"]) for c in env if c not in carried and (keep_all or c in used) and not env[c].get("iter")]
+        self.nloops += 1
+        hname = "%s_body%d" % (self.name, self.nloops)
+        fixed_sig = "".join("(%s : %s) " % (l, t) for _, l, t in fixed)
+        fixed_args = "".join(" " + l for _, l, t in fixed)
+        self.helpers.append(
+            "def %s %s(%s : %s) (%s : %s) : %s :=\n  %s%s\n\n" % (hname, fixed_sig, xln, ety, svar, sty, sty, unpack.replace(pad2, "  "), bv.replace("\n" + pad2, "\n  ")) +
+            "def %s_pre %s(%s : %s) (%s : %s) : Bool :=\n  %s%s\n\n" % (hname, fixed_sig, xln, ety, svar, sty, unpack.replace(pad2, "  "), bp.replace("\n" + pad2, "\n  ")))
+        s0 = self.state_pack([env[c]["lean"] for c in carried])
+        env2 = dict(env)
+        outnames = []
+        for c in carried:
+            ln = self.fresh(c); outnames.append(ln); env2[c] = dict(lean=ln, type=env[c]["type"])
+        if len(carried) == 1:
+            rvar, post = outnames[0], ""
+        else:
+            rvar = self.fresh("st")
+            post = self.state_unpack(rvar, outnames, ctys, pad)
+        head = "let %s : %s := forEach (%s%s) %s %s\n%s%s" % (rvar, sty, hname, fixed_args, ct, s0, pad, post)
+        v, p = self.block(rest, env2, cont, ind)
+        pre = "forEachPre (%s_pre%s) (%s%s) %s %s &&\n%s" % (hname, fixed_args, hname, fixed_args, ct, s0, pad)
+        if cp: pre = "(%s) &&\n%s%s" % (cp, pad, pre)
+        return head + v, pre + head + p
+
     def for_range(self, s, rest, env, cont, ind):
         """`for (unsigned i = e0; i < bound; ++i) body` with no `return` in the body (nesting allowed):
         `forRange (fun i state => body) (bound - e0) e0 state`, state = the variables the body assigns"""
@@ -1087,12 +1314,7 @@ class FnTrans:
         sty = " × ".join(ctys)
         pad2 = "  " * (ind + 2)
         unpack = self.state_unpack(svar, cnames, ctys, pad2)
-        saved_loop, saved_wrap, saved_brk = self._loopctx, getattr(self, "_retwrap", None), getattr(self, "_breakcont", None)
-        self._loopctx, self._retwrap, self._breakcont = None, None, None
-        try:
-            bv, bp = self.block([body], benv, lambda e: (self.state_pack([e[c]["lean"] for c in carried]), "true"), ind + 2)
-        finally:
-            self._loopctx, self._retwrap, self._breakcont = saved_loop, saved_wrap, saved_brk
+        bv, bp = self.loop_body(body, benv, carried, ind + 2)
         # the body becomes a named definition `<f>_body<k> <fixed variables> i state` (+ `_pre`), so that the text stays
         # linear in the nesting depth and bridge lemmas can be stated per loop body
         used = self.vars_read(body)
@@ -1137,6 +1359,9 @@ class FnTrans:
         pad = "  " * ind
         parts = s["inner"]
         init, cond, inc, body = parts[0], parts[2], parts[3], parts[4]
+        if init is not None and init.get("kind") == "DeclStmt" and "iterator" in init["inner"][0].get("type", {}).get("qualType", ""):
+            if self.has_return(body): raise Unsupported("%s: return inside an iterator loop" % self.name)
+            return self.for_each(s, rest, env, cont, ind)
         if not self.has_return(body):
             return self.for_range(s, rest, env, cont, ind)
         if self._loopctx is not None: raise Unsupported("%s: nested loops with return" % self.name)
@@ -1225,6 +1450,12 @@ class FnTrans:
         pre_lets = ""
         for (cn, ln, lt, kind) in self.outs:
             if kind == "out": pre_lets += "let %s : %s := default\n  " % (ln, lt)
+        for mn_, mt_ in self.job.get("member_locals", {}).items():
+            # a pointer member that the function assigns before it reads it and whose value the kernel's result does not include
+            if not mt_.startswith("Option "): raise Unsupported("member_locals: %s must be a pointer (Option)" % mn_)
+            ln_ = self.fresh(mn_)
+            env[mn_] = dict(lean=ln_, type=mt_)
+            pre_lets += "let %s : %s := none\n  " % (ln_, mt_)
         def end(e):
             if self.ret_type is not None:
                 raise Unsupported("%s: control reaches end of non-void function" % self.name)
@@ -1324,12 +1555,19 @@ def run_job(job, repo):
     or dict(parts=[{src, functions, ...overrides}], ns, out, ...): several sources into one Lean file"""
     if "parts" in job:
         text, known = "", {}
+        # all clang invocations of all parts run concurrently (one process per function)
+        pjs = []
         for part in job["parts"]:
-            pj = dict(job); pj.pop("parts"); pj.update(part)
-            t, k = run_job_body(pj, repo, known)
+            pj = dict(job); pj.pop("parts"); pj.update(part); pjs.append(pj)
+        with ThreadPoolExecutor(16) as ex:
+            futs = [[ex.submit(clang_ast, str(repo / pj["src"]), pj.get("filters", {}).get(fn, fn), str(repo / "cola"), "gnu++11", pj.get("shim"))
+                     for fn in pj["functions"]] for pj in pjs]
+            pre = [[f.result() for f in fs] for fs in futs]
+        for part, pj, asts in zip(job["parts"], pjs, pre):
+            t, k = run_job_body(pj, repo, known, asts)
             text += "-- from %s\n%s" % (part["src"], t)
             known.update(k)
-        head = PRELUDE.format(src=", ".join(p_["src"] for p_ in job["parts"]), ns=job["ns"],
+        head = PRELUDE.format(src=job.get("src_label") or ", ".join(p_["src"] for p_ in job["parts"]), ns=job["ns"],
                               imports="\n".join("import " + i for i in job.get("imports", [])),
                               opens="\n".join("open " + o for o in job.get("opens", [])))
         return head + text + "end %s\n" % job["ns"], known
@@ -1340,12 +1578,13 @@ def run_job(job, repo):
     return head + text + "end %s\n" % job["ns"], known
 
 
-def run_job_body(job, repo, known):
+def run_job_body(job, repo, known, asts=None):
     src = str(repo / job["src"])
     incl = str(repo / "cola")
     job = dict(job)
     resolve_constants(job, src, incl)
-    with ThreadPoolExecutor(16) as ex:
+    if asts is None:
+      with ThreadPoolExecutor(16) as ex:
         asts = list(ex.map(lambda fn: clang_ast(src, job.get("filters", {}).get(fn, fn), incl, shim=job.get("shim")), job["functions"]))
     text = ""
     if job.get("emit_constants"):
